@@ -138,15 +138,13 @@ def explore(world0, name='', max_states=200000, max_seconds=600.0, max_depth=400
                     continue
                 except HarnessError:
                     raise
-                except Exception as e:  # the library itself raised
-                    tb = traceback.extract_tb(e.__traceback__)
-                    where = ''
-                    for fr in reversed(tb):
-                        if '/simprocesd/' in fr.filename:
-                            where = f'{os.path.basename(fr.filename)}:{fr.name}'
-                            break
-                    if not where and tb:
-                        where = f'{os.path.basename(tb[-1].filename)}:{tb[-1].name}'
+                except Exception as e:
+                    from . import library_origin
+                    where = library_origin(e)
+                    if where is None:
+                        # raised in harness code: never a verdict about the library
+                        raise HarnessError(f'{name}: {type(e).__name__}: {str(e)[:300]} in harness code at '
+                                           f'{"".join(traceback.format_tb(e.__traceback__)[-2:])[:600]} on path {p2[-3:]}')
                     res.violations.append({'clause': 'exception',
                                            'detail': f'{type(e).__name__} at {where}: {str(e)[:160]}',
                                            'path': [list(x) for x in p2], 'scenario': name})
